@@ -1,0 +1,38 @@
+//! Verification hook (cargo feature `verif-hooks`, add-only): attaches a [`Discv5`] to a service
+//! that was built outside of [`Discv5::start`], so that the unchanged public API (`add_enr`,
+//! `find_node`, `find_node_designated_peer`, `send_ping`, `talk_req`, `event_stream`, ...) drives
+//! it. Used by `service::verif_hooks::scripted_service`.
+use super::*;
+
+/// The shared handles a `Discv5` hands to its service in `start`.
+pub(crate) type VerifHandles = (
+    Arc<RwLock<KBucketsTable<NodeId, Enr>>>,
+    Arc<RwLock<Enr>>,
+    Arc<RwLock<CombinedKey>>,
+);
+
+impl Discv5 {
+    /// The routing table, local ENR and key exactly as `start` passes them to `Service::spawn`.
+    pub(crate) fn verif_handles(&self) -> VerifHandles {
+        (
+            self.kbuckets.clone(),
+            self.local_enr.clone(),
+            self.enr_key.clone(),
+        )
+    }
+
+    /// What `start` does with the channels returned by `Service::spawn`.
+    pub(crate) fn verif_attach(
+        &mut self,
+        service_channel: mpsc::Sender<ServiceRequest>,
+        service_exit: oneshot::Sender<()>,
+    ) {
+        self.service_exit = Some(service_exit);
+        self.service_channel = Some(service_channel);
+    }
+
+    /// The configuration this instance was built with.
+    pub(crate) fn verif_config(&self) -> &Config {
+        &self.config
+    }
+}
